@@ -33,8 +33,8 @@ ASSUMPTIONS = [
 ]
 FINDINGS = {}
 T, A, P = CoroutineState.TERMINATED, CoroutineState.ACTIVE, CoroutineState.PAUSED
-YIELDS = [None, 0, -1, 0.5, 1, 2, 0.125, None]
-DTS = [0, 0.5, 1, 1, 2, 0.125, 3, 0.5]
+YIELDS = [None, 0, -1, 1, 1, 2, 0.5, 4]       # 1 twice: equal deadlines of several coroutines are frequent
+DTS = [0, 0.5, 0.5, 1, 0.125, 0.25, 2, 0.5]
 
 
 def decode_step(p):
@@ -52,8 +52,8 @@ def decode_step(p):
 
 def decode_op(t):
     sel, p = t
-    kind = ('process', 'process', 'process', 'process', 'start', 'start', 'start', 'kill', 'kill', 'pkill', 'state',
-            'forget', 'nongen')[sel % 13]
+    kind = ('process', 'process', 'process', 'process', 'start', 'start', 'restart', 'kill', 'kill', 'pkill', 'state',
+            'forget', 'nongen', 'restart', 'process')[sel % 15]
     if kind == 'process':
         return ['process', DTS[p % 8]]
     if kind == 'nongen':
@@ -63,7 +63,7 @@ def decode_op(t):
 
 def strategy():
     step = st.integers(0, 6 * 256 * 10 * 3 - 1).map(decode_step)
-    op = st.tuples(st.integers(0, 12), st.integers(0, 15)).map(decode_op)
+    op = st.tuples(st.integers(0, 14), st.integers(0, 15)).map(decode_op)
     return st.fixed_dictionaries({
         'scripts': st.lists(st.lists(step, min_size=1, max_size=5), min_size=1, max_size=4),
         'ops': worldops.chunked(op, 40)})
@@ -368,6 +368,12 @@ class Run:
                 self.op_forget(op[1])
             elif op[0] == 'nongen':
                 self.op_nongen(op[1], op[2])
+            elif op[0] == 'restart':
+                # kill immediately followed by start (no frame in between), preferably of a PAUSED coroutine
+                c = [i for i in range(self.n) if self.state[i] == P and self.gens[i]]
+                j = c[op[1] % len(c)] if c and op[1] < 12 else self.pick('kill', op[1])
+                self.do('kill', j)
+                self.do('start', j)
             else:
                 self.do(op[0], self.pick(op[0], op[1]))
             for i in range(self.n):
